@@ -92,6 +92,7 @@ func C18(c *Ctx) {
 	c.c18CommitForward()
 	r.Rule("R18.9", "the pending nonce is never below the commit nonce: a commit report may name nonces this replica's pool never held as ready (the gap below them was filled on another replica, or the whole transaction was never received); processCommitTransactions therefore raises an account's pending nonce to its new commit nonce (a setPendingNonce fed from the commit nonce, in the function or a helper of the commit path). Otherwise the admission filter (nonce >= pending nonce) admits transactions that are already committed, and the account's following transactions are never batched on this replica.")
 	c.c18PendingFollowsCommit()
+	c.c18HashLifetime()
 	r.NotDecided = append(r.NotDecided, "history-dependent consistency of the indices over arrival/commit interleavings; restart reload of nonces; the unbounded batch when the ready counter is 0 while ready transactions exist (reported as information)")
 
 	pt := c.fn("R18.1", mpPrefix+"ProcessTransactions")
